@@ -266,6 +266,12 @@ def nat_Linv(rng):
     z[0] = 0
     out = at.Linv(w)
     e = 0 if np.all(np.isfinite(out)) else 1.0
+    # pseudo-inverse: the G = 0 component of the result is zero for an input WITH a G = 0 component, in every layout, and the layouts agree
+    v = rnd(rng, at.Ns)
+    st = rnd(rng, 2, at.Ns, 2)
+    ov, ost = at.Linv(v), at.Linv(st)
+    e = max(e, np.abs(out[0]).max(), abs(ov[0]), np.abs(ost[:, 0]).max())
+    e = max(e, np.abs(np.nan_to_num(at.Linv(st[1])) - np.nan_to_num(ost[1])).max(), np.abs(np.nan_to_num(at.Linv(w[:, 0])) - np.nan_to_num(out[:, 0])).max())
     return max(e, np.abs(np.nan_to_num(at.Linv(at.L(w))) - z).max(), np.abs(np.nan_to_num(at.L(at.Linv(w))) - z).max())
 
 
